@@ -354,8 +354,15 @@ def dt_vector(unit, toks):
 
 def stale_dt_vector(unit, toks):
     """A vector whose .dt proxy was created while it held other contents."""
-    y = di.Vector(np.full(len(toks), "NaT", dtype=f"datetime64[{unit}]"))
+    # ... and on which dt functions were already CALLED with those other contents (anything a call
+    # cached on the vector, its proxy or the module is stale now)
+    y = di.Vector(np.full(len(toks), "2001-02-03", dtype=f"datetime64[{unit}]"))
+    if len(toks):
+        y[-1] = np.datetime64("NaT")
     y.dt
+    y.dt.year()
+    di.dt.day(y)
+    di.dt.to_string(y, "%Y")
     y[:] = V.np_array(unit, toks)
     return y
 
@@ -363,6 +370,11 @@ def stale_dt_vector(unit, toks):
 def stale_str_vector(toks, attr):
     y = di.Vector(np.array(["zz"] * len(toks), dtype=di.dtypes.string))
     getattr(y, attr)
+    if attr == "re":
+        y.re.findall("z")
+        di.regex.sub("z", "y", y)
+    else:
+        y.str.upper()
     y[:] = V.np_array("str", toks)
     return y
 
